@@ -22,7 +22,9 @@ for c in ${@:-$prop}; do
   out=$(MQTT_SRC=$T/src ./check $c --tier quick 2>&1); rc=$?
   echo "--- check $c rc=$rc"; echo "$out" | grep -v "^NOTE" | tail -4
   res="$res $c:$rc"
+  clauses="$clauses$(echo "$out" | grep -o "C[0-9][0-9]\.[a-z_0-9]*" | sort | uniq -c | sort -rn | head -3 | awk '{printf " %s(x%s)", $2, $1}')"
 done
 rm -rf $T
 echo "RESULT $name$res"
 echo "$res" > $S/result.txt
+echo "clauses:$clauses" >> $S/result.txt
